@@ -181,11 +181,20 @@ func cryptoStub(in *Interp, fn *ssa.Function, pkg, name string) StubFn {
 				}
 			case "Set":
 				return func(in *Interp, fn *ssa.Function, a []Val) Val {
+					if sp, ok := a[1].(Ptr); ok && sp.Obj != nil {
+						if t, ok := in.bigField[sp.Obj]; ok {
+							in.bigField[a[0].(Ptr).Obj] = t
+							delete(in.bigVals, a[0].(Ptr).Obj)
+							return a[0]
+						}
+					}
+					delete(in.bigField, a[0].(Ptr).Obj)
 					in.bigVals[a[0].(Ptr).Obj] = bigVal(in, a[1])
 					return a[0]
 				}
 			case "SetUint64", "SetInt64":
 				return func(in *Interp, fn *ssa.Function, a []Val) Val {
+					delete(in.bigField, a[0].(Ptr).Obj)
 					in.bigVals[a[0].(Ptr).Obj] = a[1].(*Term)
 					return a[0]
 				}
@@ -198,10 +207,81 @@ func cryptoStub(in *Interp, fn *ssa.Function, pkg, name string) StubFn {
 		if rn != nil && sig.Results().Len() == 1 && types.Identical(sig.Results().At(0).Type(), sig.Recv().Type()) {
 			return func(in *Interp, fn *ssa.Function, a []Val) Val {
 				delete(in.bigVals, a[0].(Ptr).Obj)
+				delete(in.bigField, a[0].(Ptr).Obj)
 				return a[0]
 			}
 		}
 		return nil
+	}
+	// ---- gnark-crypto/utils worker pool: jobs run one after the other, in submission order
+	// (sequential schedule; the callers' contract is that jobs of one Submit are independent)
+	if pkg == "github.com/consensys/gnark-crypto/utils" {
+		switch name {
+		case "NewWorkerPool":
+			return func(in *Interp, fn *ssa.Function, a []Val) Val {
+				et := fn.Signature.Results().At(0).Type().(*types.Pointer).Elem()
+				return Ptr{Obj: in.newObj(in.zero(et), "workerpool")}
+			}
+		case "Stop":
+			return func(in *Interp, fn *ssa.Function, a []Val) Val { return nil }
+		case "NbWorkers":
+			return func(in *Interp, fn *ssa.Function, a []Val) Val { return BVConst(1, 64) }
+		case "Submit":
+			return func(in *Interp, fn *ssa.Function, a []Val) Val {
+				n, mb := a[1].(*Term), a[3].(*Term)
+				if !n.IsConst {
+					k := in.concretize(n, in.cfg.MaxIndexSplit, "WorkerPool.Submit size")
+					if k < 0 {
+						return Ptr{Obj: in.newObj(in.zero(fn.Signature.Results().At(0).Type().(*types.Pointer).Elem()), "waitgroup")} // n <= 0: no job
+					}
+					n = BVConst(uint64(k), 64)
+				}
+				if !mb.IsConst || mb.C == 0 {
+					panic(abort("unmodelled", "WorkerPool.Submit with a symbolic block size"))
+				}
+				for start := int64(0); start < int64(n.C); start += int64(mb.C) {
+					end := start + int64(mb.C)
+					if end > int64(n.C) {
+						end = int64(n.C)
+					}
+					in.invoke(a[2].(FuncV), []Val{BVConst(uint64(start), 64), BVConst(uint64(end), 64)})
+				}
+				et := fn.Signature.Results().At(0).Type().(*types.Pointer).Elem()
+				return Ptr{Obj: in.newObj(in.zero(et), "waitgroup")}
+			}
+		}
+	}
+	// ---- fr/polynomial memory pool: Make hands out recycled memory, i.e. ARBITRARY contents
+	if strings.HasSuffix(pkg, "/fr/polynomial") && isEccPkg(pkg) {
+		switch name {
+		case "NewPool":
+			return func(in *Interp, fn *ssa.Function, a []Val) Val { return in.zero(fn.Signature.Results().At(0).Type()) }
+		case "Make":
+			return func(in *Interp, fn *ssa.Function, a []Val) Val {
+				n := a[1].(*Term)
+				if !n.IsConst || n.C > 1<<12 {
+					panic(abort("unmodelled", "Pool.Make with a symbolic size"))
+				}
+				et := fn.Signature.Results().At(0).Type().(*types.Slice).Elem()
+				sl := in.makeSlice(et, int(n.C), int(n.C))
+				for i := 0; i < int(n.C); i++ {
+					in.store(in.sliceElemPtr(sl, i), in.nondetOf(et, "pooled"))
+				}
+				return sl
+			}
+		case "Dump":
+			return func(in *Interp, fn *ssa.Function, a []Val) Val { return nil }
+		case "Clone":
+			return func(in *Interp, fn *ssa.Function, a []Val) Val {
+				src := a[1].(SliceV)
+				et := fn.Signature.Results().At(0).Type().(*types.Slice).Elem()
+				sl := in.makeSlice(et, src.Len, src.Len)
+				for i := 0; i < src.Len; i++ {
+					in.store(in.sliceElemPtr(sl, i), in.sliceGet(src, i))
+				}
+				return sl
+			}
+		}
 	}
 	// ---- Fiat-Shamir transcript: opaque challenges ---------------------------------------
 	if pkg == "github.com/consensys/gnark-crypto/fiat-shamir" {
@@ -447,7 +527,25 @@ func cryptoStub(in *Interp, fn *ssa.Function, pkg, name string) StubFn {
 			case "SetBytes", "SetBytesCanonical", "SetBigInt", "SetString", "SetInterface", "Exp", "Sqrt", "Halve", "BigInt":
 				return func(in *Interp, fn *ssa.Function, a []Val) Val {
 					if name == "BigInt" {
+						// the big.Int now carries this field value (read back by SetBigInt)
+						if bp, ok := a[1].(Ptr); ok && bp.Obj != nil {
+							in.bigField[bp.Obj] = in.frRead(a[0])
+							delete(in.bigVals, bp.Obj)
+						}
 						return a[1]
+					}
+					if name == "SetBigInt" {
+						if bp, ok := a[1].(Ptr); ok && bp.Obj != nil {
+							t, ok := in.bigField[bp.Obj]
+							if !ok {
+								t = in.cfg.Field.Fresh(in, "elem.SetBigInt", wordW(in.frArr(a[0])))
+								if _, small := in.bigVals[bp.Obj]; !small {
+									in.bigField[bp.Obj] = t
+								}
+							}
+							in.frWrite(a[0].(Ptr), t)
+							return a[0]
+						}
 					}
 					in.frWrite(a[0].(Ptr), in.cfg.Field.Fresh(in, "elem."+name, wordW(in.frArr(a[0]))))
 					res := fn.Signature.Results()
